@@ -21,6 +21,8 @@ RULE = ('Hypothesis generates 1..10 fit results (1..6 fits each, best chi^2 incl
         'between attained values or exactly on one, explicit or automatic output names, and the input form (file path or list of result '
         'objects), preceded by 0..2 earlier calls with other thresholds on the same output names. One evaluation = the last filter_output call with both outputs read back. Non-trivial = >= 2 sources and both '
         'output files non-empty; distinct = distinct canonical JSON.')
+RULE += (' ' + 'List inputs may have their final flag set in place after n_data was read.')
+RULE += (' ' + 'A third of the inputs hold sources that share a name (some, all, or all unnamed): names are labels, every record counts.')
 ASSUMPTIONS = [
     'an output that should hold no record may be a zero-byte / unreadable file (nothing is claimed about it)',
     'automatic output names are only defined for a file-name input (documented ValueError otherwise)',
@@ -45,6 +47,16 @@ def cases(draw):
             for i in draw(st.lists(st.sampled_from(others), min_size=1, max_size=len(others), unique=True)):
                 r['chi2'][i] = float('nan')
         recs.append(r)
+    # source names are labels, not keys: several sources of a catalogue may carry the same one (or none at all)
+    naming = draw(st.sampled_from(['unique', 'unique', 'unique', 'some_shared', 'all_shared', 'unnamed']))
+    if naming != 'unique' and nsrc >= 2:
+        for i, r in enumerate(recs):
+            if naming == 'all_shared':
+                r['source']['name'] = 'star'
+            elif naming == 'unnamed':
+                r['source']['name'] = ''
+            elif i > 0 and draw(st.booleans()):
+                r['source']['name'] = recs[draw(st.integers(0, i - 1))]['source']['name']
     crit = draw(st.sampled_from(['chi', 'cpd']))
     # attained statistic per source (best = smallest chi2, which sort() puts first)
     stats = []
@@ -68,7 +80,7 @@ def cases(draw):
     return {'names': names, 'nfilt': nfilt, 'records': recs, 'criterion': crit, 'threshold': thr, 'input': form,
             'auto': draw(st.booleans()) if form == 'file' else False, 'earlier_thresholds': before,
             'naming': draw(st.sampled_from(['both', 'both', 'good_explicit', 'bad_explicit'])),
-            'late_flags': draw(st.booleans())}
+            'late_flags': draw(st.booleans()), 'source_naming': naming}
 
 
 def read_or_empty(path, what):
@@ -85,6 +97,8 @@ def run_case(case, ctx):
     nfilt = case['nfilt']
     crit, thr = case['criterion'], case['threshold']
     labels = {'crit_' + crit, 'input_' + case['input'], 'auto_names' if case['auto'] else 'explicit_names'}
+    if len(set(r['source']['name'] for r in case['records'])) < len(case['records']):
+        labels.add('sources_sharing_a_name')
     if any(v != v for r in case['records'] for v in r['chi2']):
         labels.add('nan_chi2_ranked_last')
     if thr == 0.:
